@@ -136,8 +136,10 @@ DFS2 = {"kind": "dfs", "bound": 2, "max": 2500}
 
 def strategies(tier, seed):
     if tier == "quick":
-        return [{"kind": "dfs", "bound": 2, "max": 1500}, {"kind": "pct", "depth": 3, "runs": 500, "seed": seed}]
-    return [{"kind": "dfs", "bound": 3, "max": 60000}, {"kind": "pct", "depth": 3, "runs": 20000, "seed": seed}, {"kind": "random", "runs": 5000, "seed": seed + 1}]
+        return [{"kind": "dfs", "bound": 2, "max": 1200, "rotate": True, "reduce": True}, {"kind": "dfs", "bound": 2, "max": 600, "rotate": True, "storeonly": True, "reduce": True},
+                {"kind": "pct", "depth": 3, "runs": 400, "seed": seed}]
+    return [{"kind": "dfs", "bound": 3, "max": 45000, "rotate": True, "reduce": True}, {"kind": "dfs", "bound": 2, "max": 30000, "rotate": True},
+            {"kind": "pct", "depth": 3, "runs": 20000, "seed": seed}, {"kind": "random", "runs": 5000, "seed": seed + 1}]
 
 
 def cache_families(kind, kt, vt, strat):
